@@ -217,9 +217,11 @@ def spec_of(case):
     return make_spec(3, [tuple(e) for e in case['edges']], bfeat, bdev)
 
 
-def build_from_spec(spec, extra=None):
+def build_from_spec(spec, extra=None, mva=None):
     import andes
     ss = andes.System(no_output=True, default_config=True)
+    if mva:
+        ss.config.mva = mva
     for m in ('Bus', 'Line', 'Slack', 'PV', 'PQ', 'Shunt'):
         for d in spec[m]:
             ss.add(m, dict(d))
@@ -301,9 +303,9 @@ class Generated(Part):
 
 # ------------------------------------------------------------------ MATPOWER
 
-def spec_to_mpc_text(spec, phase_only=None):
-    """Independent MATPOWER writer. MATPOWER has no end shunts / own bases: those features are not passed in."""
-    base = 100.0
+def spec_to_mpc_text(spec, phase_only=None, base=100.0):
+    """Independent MATPOWER writer. MATPOWER has no end shunts / own bases: those features are not passed in.
+    Per-unit numbers of the spec are taken as given on the case base `base`."""
     kv = {b['idx']: b['Vn'] for b in spec['Bus']}
     lines = ['function mpc = gen', "mpc.version = '2';", f'mpc.baseMVA = {base};', 'mpc.bus = [']
     slack = {d['bus'] for d in spec['Slack']}
@@ -316,8 +318,8 @@ def spec_to_mpc_text(spec, phase_only=None):
         ty = 3 if b['idx'] in slack else (2 if b['idx'] in pvb else 1)
         # shunts: expressed directly in MW / Mvar at 1 pu (MATPOWER convention)
         sh = [d for d in spec['Shunt'] if d['bus'] == b['idx']]
-        gs = sum(d['g_mw'] for d in sh) if sh and 'g_mw' in sh[0] else 0.0
-        bs = sum(d['b_mvar'] for d in sh) if sh and 'b_mvar' in sh[0] else 0.0
+        gs = sum(d['g_mw'] for d in sh) * base / 100.0 if sh and 'g_mw' in sh[0] else 0.0
+        bs = sum(d['b_mvar'] for d in sh) * base / 100.0 if sh and 'b_mvar' in sh[0] else 0.0
         lines.append(f'  {b["idx"]} {ty} {pd:.10g} {qd:.10g} {gs:.10g} {bs:.10g} 1 1.0 0.0 {b["Vn"]} 1 1.6 0.4;')
         ref['bus'][b['idx']] = dict(pd=pd / base, qd=qd / base, gs=gs / base, bs=bs / base, Vn=b['Vn'], type=ty)
     lines += ['];', 'mpc.gen = [']
@@ -354,7 +356,7 @@ class Matpower(Part):
     def describe(self, tier):
         return ('triangle networks restricted to what MATPOWER can express (tap, phase, charging, offline branch; 2 x PQ, PV, '
                 'shunt, offline load) incl. a ratio-0 phase shifter: text -> System vs generator data; system2mpc -> mpc2system '
-                'equivalence incl. string bus indices, two loads on a bus, offline load')
+                'equivalence incl. string bus indices, two loads on a bus, offline load; case base 100 and 50 MVA')
 
     def cases(self, tier):
         out = []
@@ -364,6 +366,9 @@ class Matpower(Part):
             out.append(dict(c, mode='read', phase_only=None))
             out.append(dict(c, mode='export', stridx=False))
             out.append(dict(c, mode='export', stridx=True))
+            # a case base other than 100 MVA (per-unit data are on the case base)
+            out.append(dict(c, mode='read', phase_only=None, base=50.0))
+            out.append(dict(c, mode='export', stridx=False, base=50.0))
         out.append(dict(edges=[(0, 1), (0, 2), (1, 2)], dev=[], mode='read', phase_only=1))
         out.append(dict(edges=[(0, 1), (0, 2), (1, 2)], dev=[['d', 1, 'pv']], mode='read', phase_only=2))
         return out
@@ -378,7 +383,10 @@ class Matpower(Part):
         out = Outcome()
         seen = set()
 
+        sfx = ':base50' if case.get('base') else ''
+
         def bad(sig, msg):
+            sig += sfx
             if sig not in seen:
                 seen.add(sig)
                 out.bad(sig, msg)
@@ -394,7 +402,7 @@ class Matpower(Part):
             g['Sn'] = 100.0
         try:
             if case['mode'] == 'read':
-                text, ref = spec_to_mpc_text(spec, case.get('phase_only'))
+                text, ref = spec_to_mpc_text(spec, case.get('phase_only'), base=case.get('base', 100.0))
                 path = os.path.join(self.tmp, f'm-{os.getpid()}.m')
                 open(path, 'w').write(text)
                 ss = andes.load(path, no_output=True, default_config=True)
@@ -406,7 +414,12 @@ class Matpower(Part):
             else:
                 if case.get('stridx'):
                     spec = relabel(spec)
-                s1 = build_from_spec(spec)
+                if case.get('base'):
+                    for sh in spec['Shunt']:
+                        sh['Sn'] = case['base']
+                    for ln in spec['Line']:
+                        ln['Sn'] = case['base']
+                s1 = build_from_spec(spec, mva=case.get('base'))
                 mpc = mp.system2mpc(s1)
                 s2 = andes.System(no_output=True, default_config=True)
                 mp.mpc2system(mpc, s2)
@@ -443,7 +456,7 @@ class Matpower(Part):
                 bad('mpc_read:generator', f'generator {r} not found among {gens}')
         for k, r in enumerate(ref['branch']):
             L = ss.Line
-            got = dict(bus1=L.bus1.v[k], bus2=L.bus2.v[k], r=L.r.vin[k], x=L.x.vin[k], b=L.b.vin[k], tap=L.tap.v[k],
+            got = dict(bus1=L.bus1.v[k], bus2=L.bus2.v[k], r=L.r.v[k], x=L.x.v[k], b=L.b.v[k], tap=L.tap.v[k],
                        phi=L.phi.v[k], u=int(L.u.v[k]))
             for key in ('bus1', 'bus2', 'u'):
                 if got[key] != r[key]:
@@ -504,7 +517,7 @@ class Matpower(Part):
 
 def spec_to_raw(spec, variant):
     """Independent RAW v33 writer; returns (text, reference element data in ANDES conventions)."""
-    base = 100.0
+    base = float(variant.get('sbase', 100.0))
     L = [f'0, {base:.2f}, 33, 0, 1, 60.00 / generated', 'VMC GENERATED CASE', 'SECOND TITLE LINE']
     slack = {d['bus'] for d in spec['Slack']}
     pvb = {d['bus'] for d in spec['PV']}
@@ -585,11 +598,12 @@ class Psse(Part):
     def __init__(self, tier='quick'):
         self.tier = tier
 
-    VARIANTS = [dict(), dict(zip=1), dict(endshunt=1), dict(cw=2), dict(cz=2), dict(windv2=0.97), dict(cw=2, cz=2, zip=1, endshunt=1)]
+    VARIANTS = [dict(), dict(zip=1), dict(endshunt=1), dict(cw=2), dict(cz=2), dict(windv2=0.97), dict(cw=2, cz=2, zip=1, endshunt=1),
+                dict(sbase=50.0), dict(sbase=50.0, cw=2, cz=2, zip=1, endshunt=1)]
 
     def describe(self, tier):
         return ('triangle networks (RAW-expressible features) x variants (plain, ZIP load parts, branch end shunts GI/BI/GJ/BJ, '
-                'CW=2, CZ=2, winding-2 tap, all together): generated RAW v33 text -> System vs generator data')
+                'CW=2, CZ=2, winding-2 tap, all together, system base 50 MVA): generated RAW v33 text -> System vs generator data')
 
     def cases(self, tier):
         out = []
@@ -611,12 +625,15 @@ class Psse(Part):
         out = Outcome()
         seen = set()
 
+        variant = self.VARIANTS[case['variant']]
+        sfx = ':sbase50' if variant.get('sbase') else ''
+
         def bad(sig, msg):
+            sig += sfx
             if sig not in seen:
                 seen.add(sig)
                 out.bad(sig, msg)
         spec = spec_of(case)
-        variant = self.VARIANTS[case['variant']]
         text, ref = spec_to_raw(spec, variant)
         path = os.path.join(self.tmp, f'p-{os.getpid()}.raw')
         open(path, 'w').write(text)
